@@ -49,6 +49,10 @@ def lib_functions():
         "AtMostKSubstitution", "ExactlyKSubstitution", "AnythingButKSubstitution", "IfThenElseSubstitution",
         "FlipPolarity")}
     t["Shuffle"] = Shuffle
+    t["VariableCompression_xor_random"] = lambda F, N, d: S.VariableCompression(
+        F, bipartite_random_left_regular(F.number_of_variables(), N, d), "xor")
+    t["VariableCompression_maj_random"] = lambda F, N, d: S.VariableCompression(
+        F, bipartite_random_left_regular(F.number_of_variables(), N, d), "maj")
     t["identity"] = lambda F: F
     return f, t
 
@@ -205,6 +209,16 @@ def main(argv=None):
         c = side(lambda: cnfgen.PebblingFormula(R.load("dag", path)))
         recs.append({"id": "k2p-%d-vs-peb" % j, "strict": True, "a": a, "b": b, "argv": "kthlist2pebbling -i dag"})
         recs.append({"id": "k2p-%d-vs-lib" % j, "strict": True, "a": a, "b": c, "argv": "kthlist2pebbling -i dag"})
+    # coverage of the table: which sub-commands / transformations of the tools have no entry
+    from cnfgen.clitools.cmdline import get_formula_helpers, get_transformation_helpers
+    tabled = {c["argv"][0] for c in cmds}
+    ttabled = {t["tok"][0] for t in trans}
+    ck.cover["subcommands_without_table_entry"] = sorted({h.name for h in get_formula_helpers()} - tabled)
+    ck.cover["transformations_without_table_entry"] = sorted({h.name for h in get_transformation_helpers()} - ttabled)
+    ck.cover["table_entries_without_subcommand"] = sorted(tabled - {h.name for h in get_formula_helpers()})
+    if ck.cover["table_entries_without_subcommand"]:
+        raise tlc.MachineryError("LibCall table names sub-commands the tool does not have: %r"
+                                 % ck.cover["table_entries_without_subcommand"])
     ok_pairs = sum(1 for r in recs if r["a"]["outcome"] == "ok" and r["b"]["outcome"] == "ok")
     ck.count("table_formula_commands", len(cmds))
     ck.count("table_transformations", len(trans))
